@@ -45,6 +45,8 @@ M = [
   'const double logCount = std::log(count + 1.0);', 'const double logCount = std::log(count + 2.0);'),
  ('N5 rPOMCP max-of-belief: maxS_ moves on ties', 'include/AIToolbox/POMDP/Algorithms/Utils/rPOMCPGraph.hpp',
   'if ( trackBelief_[s].N > trackBelief_[maxS_].N )', 'if ( trackBelief_[s].N >= trackBelief_[maxS_].N )'),
+ ('N6 rPOMCP maxBeliefNodeUpdate never recomputes when the best action value goes down', RPOMCP,
+  'else if ( a == b.bestAction ) {', 'else if ( false && a == b.bestAction ) {'),
  ('M14 MCTS UCT prefers the last untried action', MCTS,
   'if ( actionValue > bestValue ) {', 'if ( actionValue >= bestValue ) {'),
 ]
